@@ -1,12 +1,15 @@
 package c10
 
 import (
+	"bytes"
 	"context"
 	"fmt"
 	"math/rand"
+	"runtime"
 	"sort"
 	"strings"
 	"sync"
+	"sync/atomic"
 	"testing"
 	"time"
 
@@ -92,6 +95,21 @@ type opRec struct {
 
 // settle waits until the asynchronous unification has quiesced: the unified view must be
 // identical in two looks 3 ms apart, after an initial pause.  false = never stable.
+// asyncUnificationsPending reports whether a goroutine started by the unified registry's
+// RegisterModels (its background unification) is still alive anywhere in this process.
+func asyncUnificationsPending() bool {
+	buf := make([]byte, 1<<20)
+	for {
+		n := runtime.Stack(buf, true)
+		if n < len(buf) {
+			return bytes.Contains(buf[:n], []byte("created by github.com/thushan/olla/internal/adapter/registry.(*UnifiedMemoryModelRegistry).RegisterModels"))
+		}
+		buf = make([]byte, 2*len(buf))
+	}
+}
+
+var settlesThatWaited atomic.Int64
+
 func settle(ctx context.Context, r domain.ModelRegistry) bool {
 	u, ok := r.(unifiedReg)
 	if !ok {
@@ -108,7 +126,18 @@ func settle(ctx context.Context, r domain.ModelRegistry) bool {
 		sort.Strings(p)
 		return strings.Join(p, ";")
 	}
-	time.Sleep(2 * time.Millisecond)
+	// every accepted registration starts one background unification; they are over when no
+	// goroutine created by RegisterModels exists any more (a view that merely looks stable for
+	// a few milliseconds is no proof of that on a loaded machine)
+	for i := 0; asyncUnificationsPending(); i++ {
+		if i == 0 {
+			settlesThatWaited.Add(1)
+		}
+		if i > 5000 {
+			return false
+		}
+		time.Sleep(2 * time.Millisecond)
+	}
 	prev := snap()
 	for i := 0; i < 400; i++ {
 		time.Sleep(3 * time.Millisecond)
@@ -549,6 +578,8 @@ func TestC10(t *testing.T) {
 	}
 	filterDifferential(run, rng)
 	throughStack(run, rng)
+	run.Count("settles_that_found_background_unification_pending", settlesThatWaited.Load())
+	run.Require("settles_that_found_background_unification_pending", 1) // the quiescence detector does see them
 	run.Require("sequential_states_compared", int64(nSeq))
 	run.Require("concurrent_histories_linearizable", int64(nConc*8/10))
 	run.Require("filter_queries", 1000)
